@@ -41,6 +41,9 @@ CHECKS = {
  "C15": ("exploration", "reference splitter vs real LineReader, exhaustive over short streams/chunkings",
    "Every byte string of length <=5 (quick) / <=7 (thorough) over {LF,CR,'a',0xC3,0xA9} x every chunking x buffer sizes {1,2,3,5,8,64} x 3 reader behaviours (1.0M / 90M runs), plus long random streams (lines longer than the 128KiB buffer, chunk sizes around 131072) through the default buffer.",
    "Reader driven as the streams drive it (ReadAndSend until (0,EOF), then Finish).", "§4 C15"),
+ "C20": ("exploration", "offline interval-order checker over a hook event log (fan-out, reload phases, per-VM line start/end), under -race",
+   "40/1500 runs of a real runtime.Runtime with one program reloaded 3-8 times at PRNG-chosen points while 30-80 numbered lines are pushed back to back; a third of line executions are stretched at the VM line hook and the reload hook yields between stopping the old and starting the new version, producing the window the quantifier names (measured: reloads that found the old version still busy at the next fan-out; floor enforced). The event log must show exactly one line_start per line and no line starting before its predecessor ended; the gauge must end at the last sequence number and the counter at N.",
+   "Schedules are provoked, not enumerated; one mutex-protected logical clock orders the log; race reports in this workload are attributed to C11.", "§4 C20"),
  "C21": ("exploration", "reference bucketing vs real datum, compiled histogram and exports",
    "3k/200k (declaration, observation sequence) cases with observations at/just below/just above every bound, negatives, ±0, ±Inf, NaN, through datum.Observe and through compiled programs fed log lines; bucket counts, count, bit-exact sum, and the Prometheus/JSON exported upper bounds and cumulative counts compared.",
    "Known finding C21-b (first bound <= 0 not exported) classified by exact shape; float sum compared in observation order.", "§4 C21"),
